@@ -295,27 +295,55 @@ def run(ctx, rep):
     pairing(R, rep)
     acquisition_guard(R, rep)
     cascade_exit(R, rep)
-    # shares of another security never enter this security's accounting: every effect of a look-ahead candidate
-    # (claim, ratio update) sits under the ticker-equality guard (shared with C09-R2)
+    same_security(R, rep, "R6")
+
+
+def _touches_ratio(R, cb):
+    """the helper reads a Split/Unsplit ratio (to scale a cumulative ratio in place or to return the scaled value)"""
+    tb = R.terms(cb, 0)
+    terms = [tb.local(0)]
+    for _, u in cb.calls():
+        if is_decimal_arith_assign(u["callee"]) in ("MulAssign", "DivAssign"):
+            return True
+        if is_decimal_arith_assign(u["callee"]) or u["callee"].endswith("arith::Mul>::mul") or u["callee"].endswith("arith::Div>::div"):
+            terms += [tb.operand(a) for a in u["args"]]
+    for t in terms:
+        for x in subterms(t):
+            if isinstance(x, tuple) and len(x) == 3 and x[0] == "field" and x[2] == "ratio" and isinstance(x[1], tuple) and x[1] and x[1][0] == "dc" \
+                    and x[1][2] in ("Split", "Unsplit"):
+                return True
+    return False
+
+
+def same_security(R, rep, rule):
+    """shares of another security never enter this security's accounting: every effect of a look-ahead candidate
+    (claim, ratio update) sits under the ticker-equality guard (shared with C09-R2 and C01)"""
     import rules.c09 as c09
     from core import Report
     r2 = Report("tmp")
     c09.lookahead_guards(R, r2)
     for o in r2.obligations:
-        rep.ob("R6", o["instance"], o["ok"], o["detail"], o["site"], key="R6:" + o["instance"])
+        rep.ob(rule, o["instance"], o["ok"], o["detail"], o["site"], key=rule + ":" + o["instance"])
     b = R.leg("BedAndBreakfast")[0]
     tb = R.terms(b, 0)
+    n = 0
     for i, t in b.calls():
         cb = R.F.bodies.get(t["callee"])
         k = is_decimal_arith_assign(t["callee"])
-        is_ratio = cb is not None and any(is_decimal_arith_assign(u["callee"]) in ("MulAssign", "DivAssign") for _, u in cb.calls())
-        if (k in ("MulAssign", "DivAssign") or is_ratio) and b.in_loop(i):
+        is_ratio = cb is not None and cb.crate == b.crate and cb.kind in ("fn", "method") and _touches_ratio(R, cb)
+        inline_ratio = k in ("MulAssign", "DivAssign") or (
+            (t["callee"].endswith("arith::Mul>::mul") or t["callee"].endswith("arith::Div>::div")) and
+            any(isinstance(x, tuple) and len(x) == 3 and x[0] == "field" and x[2] == "ratio" for a in t["args"] for x in subterms(tb.operand(a))))
+        if (inline_ratio or is_ratio) and b.in_loop(i):
+            n += 1
             ok = False
             for cond, val, s_ in guards_of(b, tb, i):
                 if isinstance(cond, tuple) and cond[0] == "cmp" and cond[1] in ("Ne", "Eq") and show(cond[2]).endswith(".ticker") and show(cond[3]).endswith(".ticker"):
                     if (cond[1] == "Ne" and not truth(val)) or (cond[1] == "Eq" and truth(val)):
                         ok = True
-            rep.ob("R6", "30-day:ratio-update-under-ticker-guard", ok,
+            rep.ob(rule, "30-day:ratio-update-under-ticker-guard", ok,
                    "the cumulative split ratio is only updated by corporate actions of the sale's own security" if ok else
                    "a SPLIT/UNSPLIT of ANY security inside the window rescales this security's 30-day match: shares are invented or lost",
-                   b.loc(t["sp"]), key="R6:bnb:ratio-ticker-guard")
+                   b.loc(t["sp"]), key=rule + ":bnb:ratio-ticker-guard")
+    if n == 0:
+        rep.unresolved(rule, "ratio-update-site", "no update of the cumulative split ratio found inside the look-ahead loop")
